@@ -32,7 +32,17 @@ fn gen_pair(ctx: &Ctx, rng: &mut Rng) -> Option<Pair> {
         } else { random_braid(rng, 5, ctx.by_tier(9, 12)) };
         if w.len() > maxc - 3 { return None }
         let k = rng.urange(1, 8);
-        let (n2, w2, log) = braid_moves(rng, n, &w, k, maxc);
+        let (mut n2, mut w2, mut log) = braid_moves(rng, n, &w, k, maxc);
+        // one pair in five: an additional conjugation g * b * g^-1 carried out with the library's own braid algebra
+        // (Braid product and Braid::inv); the closure is then again taken by the oracle
+        if rng.chance(1, 5) && w2.len() + 6 <= maxc && n2 >= 2 {
+            let g: Vec<i32> = (0..rng.urange(2, 3)).map(|_| { let i = rng.urange(1, n2 - 1) as i32; if rng.chance(1, 2) { i } else { -i } }).collect();
+            let (gb, bb) = (crate::diag::to_braid(n2, &g), crate::diag::to_braid(n2, &w2));
+            if let Ok(c) = guarded(move || { let x = &(&gb * &bb) * &gb.inv(); x.elements().iter().map(|e| if e.sign().is_positive() { e.index() as i32 } else { -(e.index() as i32) }).collect::<Vec<i32>>() }) {
+                log.push(format!("conjugation by the word {:?} through Braid::inv and the braid product", g));
+                w2 = c; let _ = &mut n2;
+            }
+        }
         let a = braid_closure(n, &w).ok()?;
         let b = braid_closure(n2, &w2).ok()?;
         let nt = log.iter().any(|s| !s.starts_with("conjugation")) && a.n() >= 3;
@@ -49,6 +59,11 @@ fn case<R: KhRing>(ctx: &mut Ctx, rng: &mut Rng) where for<'x> &'x R: EucRingOps
     let rname = R::rname();
     let Some(p) = gen_pair(ctx, rng) else { ctx.inconclusive("generator_gave_up"); return };
     if p.a.validate().is_err() || p.b.validate().is_err() { ctx.inconclusive("generator_invalid_diagram"); ctx.note(format!("invalid diagram from {}: {:?}", p.origin, p.log)); return }
+    if oracle_same_link(&p.a, &p.b) == Some(false) && p.log.iter().any(|s| s.contains("through Braid::inv")) {
+        // the only move not implemented by the generator itself: the library's braid algebra changed the link
+        ctx.violation("C02/library-braid-conjugation", &format!("conjugating the braid word with the library's Braid product and Braid::inv changed the link (oracle bracket differs): {:?}", p.log), json!({"origin": p.origin, "moves": p.log}));
+        return
+    }
     match oracle_same_link(&p.a, &p.b) { Some(false) => { ctx.inconclusive("generator_move_changed_bracket"); ctx.note(format!("moves changed the oracle bracket: {} {:?}", p.origin, p.log)); return } _ => {} }
     let knot = p.a.components().len() == 1;
     let reduced = knot && rng.chance(1, 3);
